@@ -169,17 +169,38 @@ def run_variant(pid: str, v: Variant) -> Tuple[List[str], List[str]]:
     return viol, list(ck.errors)
 
 
+def _variant_job(job):
+    pid, v = job
+    import io
+    import contextlib
+    with contextlib.redirect_stdout(io.StringIO()):
+        return run_variant(pid, v)
+
+
 def selftest(ck: Checker, pid: str):
     variants = load_variants(pid)
     n_b = n_n = n_skip = 0
     failures = []
     samples = []
+    # the replays are independent of one another: they are spread over the cores (HVSA_JOBS=1 runs them one after the other)
+    import os
+    todo = [v for v in variants if v.overrides is not None]
+    jobs = int(os.environ.get("HVSA_JOBS", str(min(16, os.cpu_count() or 1))))
+    results = {}
+    if jobs > 1 and len(todo) > 4:
+        from concurrent.futures import ProcessPoolExecutor
+        try:
+            with ProcessPoolExecutor(jobs) as ex:
+                for v, r in zip(todo, ex.map(_variant_job, [(pid, v) for v in todo], chunksize=2)):
+                    results[v.vid] = r
+        except Exception:
+            results = {}
     for v in variants:
         if v.overrides is None:
             n_skip += 1
             samples.append({"variant": v.vid, "kind": v.kind, "result": "skipped", "why": v.why_skipped})
             continue
-        viol, errs = run_variant(pid, v)
+        viol, errs = results[v.vid] if v.vid in results else run_variant(pid, v)
         if v.kind == "B":
             n_b += 1
             ok = bool(viol)
